@@ -324,42 +324,61 @@ def filter_rule(check, L, n_samples=5):
     return n
 
 
+def _eq_fact(facts, a: Poly, b: Poly):
+    d = a - b
+    if d.is_zero():
+        return True
+    lead = d.terms[min(d.terms)]
+    q = -d if lead < 0 else d
+    return facts.get("cmp:Eq:" + q.key()) is True or facts.get("sign:" + q.key()) == 0
+
+
 def spline_rule(check, L):
     I = L.I
     n = 0
-    for mode in ("ABSOLUTE",):
-        recs = L.run("spline", mode, "CLOCKWISE", shape_args(L, "spline"))
-        seen = 0
-        for rec in recs:
-            n += 1
-            if rec["outcome"] != "return":
+    want = {a: [Poly.sym(f"o.{a}"), Poly.sym(f"t.{a}"), Poly.sym(f"u.{a}")] for a in AX}
+    recs = L.run("spline", "ABSOLUTE", "CLOCKWISE", shape_args(L, "spline"))
+    seen = 0
+    for rec in recs:
+        n += 1
+        if rec["outcome"] != "return":
+            continue
+        sp = [e for e in rec["ext"] if isinstance(e.data.get("callee"), ExtV) and e.data["callee"].name.endswith("CubicSpline")]
+        d = ["; ".join(f"{k}={v}" for k, v in rec["decisions"])[:400]]
+        if len(sp) != 3:
+            check.violation("R5", "spline:axes", f"spline builds {len(sp)} CubicSpline objects, expected one per axis", d)
+            continue
+        seen += 1
+        saved = I.heap
+        I.heap = rec["heap"]
+        try:
+            kept = {}
+            for axis, e in zip(AX, sp):
+                vals = e.data["args"][1]
+                items = list(I.deref(vals).items) if isinstance(vals, Ref) else []
+                ps = [x.p if isinstance(x, Num) else None for x in items]
+                kept[axis] = [want[axis].index(p) if p in want[axis] else None for p in ps]
+        finally:
+            I.heap = saved
+        k = kept["x"]
+        if None in k or kept["y"] != k or kept["z"] != k or k != sorted(set(k)) or not k or k[0] != 0:
+            check.violation("R5", "spline:controls", f"the spline is built on control points {kept} (0 = current position, 1, 2 = the targets in order); "
+                            "expected the current position followed by the targets in order, the same on every axis", d)
+            continue
+        bad = None
+        for i in range(1, 3):
+            if i in k:
                 continue
-            sp = [e for e in rec["ext"] if isinstance(e.data.get("callee"), ExtV) and e.data["callee"].name.endswith("CubicSpline")]
-            if len(sp) != 3:
-                check.violation("R5", "spline:axes", f"spline builds {len(sp)} CubicSpline objects, expected one per axis", [])
-                continue
-            seen += 1
-            saved = I.heap
-            I.heap = rec["heap"]
-            try:
-                good = True
-                for axis, e in zip(AX, sp):
-                    vals = e.data["args"][1]
-                    items = list(I.deref(vals).items) if isinstance(vals, Ref) else None
-                    ps = [x.p if isinstance(x, Num) else None for x in (items or [])]
-                    want_all = [Poly.sym(f"o.{axis}"), Poly.sym(f"t.{axis}"), Poly.sym(f"u.{axis}")]
-                    dropped = [w for w in want_all if w not in ps]
-                    # a target may be left out only when the path decided it equal to its predecessor (duplicate removal)
-                    excused = all(any(k.startswith("cmp:Eq:") and v is True and w.key() in k for k, v in rec["decisions"]) for w in dropped)
-                    if not ps or ps[0] != want_all[0] or any(p not in want_all for p in ps) or not excused \
-                            or [want_all.index(p) for p in ps] != sorted(want_all.index(p) for p in ps):
-                        good = False
-                        check.violation("R5", f"spline:controls:{axis}", f"the {axis} spline is built on {[p.key() if p is not None else None for p in ps]}; expected the current position followed by the targets in order", [])
-                if good:
-                    check.ok("R5", "spline controls: current position, then the targets in order")
-            finally:
-                I.heap = saved
-        check.floor(seen >= 1, "C10.R5: spline has no accepted path")
+            prev = max(j for j in k if j < i) if any(j < i for j in k) else None
+            # a target may be left out only as a *consecutive* duplicate: equal to the control point kept just before it
+            if prev is None or not all(_eq_fact(rec["facts"], want[a][i], want[a][prev]) for a in AX):
+                bad = (i, prev)
+        if bad:
+            check.violation("R5", "spline:target-dropped", f"the spline leaves out target {bad[0]} although this path did not decide it equal to the control point kept just before it "
+                            f"(kept {k}): a path that revisits an earlier point would never reach it", d)
+        else:
+            check.ok("R5", f"spline controls {k}: current position, then the targets in order (only consecutive duplicates removed)")
+    check.floor(seen >= 1, "C10.R5: spline has no accepted path")
     return n
 
 
